@@ -105,6 +105,7 @@ func (p *Changes) deleteMod(dir string) {
 }
 
 func (p *Changes) Fetch(fullPath bool) (dir string) {
+	verifYield("Fetch:enter")
 	p.mutex.Lock()
 	for len(p.changed) == 0 {
 		p.cond.Wait()
@@ -134,6 +135,7 @@ func (p *Changes) FileChanged(name string) {
 	n := len(p.changed)
 	p.changed[dir] = none{}
 	p.mutex.Unlock()
+	verifYield("FileChanged:unlocked")
 	if n == 0 {
 		p.cond.Broadcast()
 	}
